@@ -263,10 +263,77 @@ def scenario(ctx, lines, pend):
             pend.append((case, sim, real_chart, cb, k))
 
 
+def shared_plane_scenario(ctx):
+    """several images aligned in ONE align_wcs call in a user-supplied reference plane that is shared by all of
+    them - a fresh corrector, or one of the inputs itself (it is then corrected in place between two images) -
+    with and without expansion of the reference catalog: whatever the plane object goes through between two
+    images, every image must land on the reference (the tangent-plane coordinates of the reference catalog belong
+    to the plane as it is when they are used)"""
+    rng = ctx.rng
+    from tweakwcs.imalign import align_wcs
+    base_pt = scenes.rand_pointing(rng)
+    if abs(base_pt[1]) > 75:
+        base_pt = (base_pt[0], math.copysign(75.0, base_pt[1]))
+    nim = rng.choice([2, 3, 3])
+    members = [scenes.mk_fits(rng, kind=rng.choice(['cd', 'pc']), pointing=base_pt, scale=3e-5, shape=(1024, 1024))[0]
+               for _ in range(nim)]
+    which = rng.choice(['member0', 'member-last', 'nonmember'])
+    if which == 'nonmember':
+        plane_obj = scenes.mk_fits(rng, kind='cd', pointing=base_pt, scale=3e-5, shape=(1024, 1024))[0]
+    else:
+        plane_obj = members[0] if which == 'member0' else members[-1]
+    plane0 = plane_obj.copy()           # the plane as it is before the call: the chart of the oracle
+    fitgeom = rng.choice(['shift', 'general', 'rscale'])
+    n = rng.choice([6, 12])
+    # true positions in the chart; they must fall on every detector: a small central patch
+    R = np.array([[rng.uniform(-150, 150) for _ in range(n)], [rng.uniform(-150, 150) for _ in range(n)]])
+    ra, dec = plane0.tanp_to_world(R[0], R[1])
+    refcat = Table([np.asarray(ra, dtype=float), np.asarray(dec, dtype=float)], names=['RA', 'DEC'])
+    ims, pix = [], []
+    for k, m in enumerate(members):
+        G = c02.gen_corr(rng, 1.0, False)
+        if fitgeom == 'shift':
+            G = Aff(np.eye(2), G.t)
+        elif fitgeom == 'rscale':
+            a = math.radians(rng.uniform(-0.05, 0.05))
+            sc = 1 + rng.uniform(-1e-3, 1e-3)
+            G = Aff(sc * np.array([[math.cos(a), -math.sin(a)], [math.sin(a), math.cos(a)]]), G.t)
+        Ginv = Aff(np.linalg.inv(G.M), -np.linalg.inv(G.M).dot(G.t))
+        src = Ginv(R)                                    # where the image's WCS puts the sources now
+        sra, sdec = plane0.tanp_to_world(src[0], src[1])
+        px, py = m.world_to_det(sra, sdec)
+        c = m if m is plane_obj else m.copy()
+        c.meta['catalog'] = Table([np.asarray(px, dtype=float), np.asarray(py, dtype=float)], names=['x', 'y'])
+        c.meta['name'] = 'im%d' % k
+        ims.append(c)
+        pix.append((np.asarray(px, dtype=float), np.asarray(py, dtype=float)))
+    case = {'op': 'shared-plane', 'nim': nim, 'plane': which, 'fitgeom': fitgeom, 'n': n}
+    ctx.case(case, nontrivial=True, branch='shared-plane:%s:%s' % (which, fitgeom))
+    try:
+        align_wcs(ims, refcat=refcat, ref_tpwcs=plane_obj, fitgeom=fitgeom, match=None, nclip=None, sigma=3.0)
+    except Exception as e:   # noqa
+        ctx.oracle_fail(case, {'what': 'align_wcs raised', 'error': '%s: %s' % (type(e).__name__, str(e)[:200])})
+        return
+    for k, c in enumerate(ims):
+        st = c.meta.get('fit_info', {}).get('status')
+        if st != 'SUCCESS':
+            ctx.oracle_fail(case, {'what': 'not SUCCESS', 'image': k, 'status': st})
+            continue
+        landed = np.array(plane0.world_to_tanp(*c.det_to_world(*pix[k])), dtype=float)
+        err = float(np.max(np.hypot(*(landed - R))))
+        rho_rad = corrsim.field_radius_units(c) * corrsim.plane_unit_rad(c)
+        b = plane_bound(plane0, c, 5.0, rho_rad, True) * (3 + nim)
+        if not np.isfinite(err) or err > b:
+            ctx.oracle_fail(case, {'what': 'an image aligned in a reference plane shared with the other images of the '
+                                           'call does not land on the reference', 'image': k, 'err': err, 'bound': b})
+
+
 def run(ctx):
     lines, pend = [], []
     for _ in range(ctx.n(30, 450)):
         scenario(ctx, lines, pend)
+    for _ in range(ctx.n(8, 80)):
+        shared_plane_scenario(ctx)
     if lines:
         outs = ctx.driver(lines)
         for out, (case, sim, real_chart, cb, k) in zip(outs, pend):
